@@ -9,13 +9,17 @@ FNames == <<"a", "b", "c", "d">>
 RECURSIVE Perms(_)
 Perms(S) == IF S = {} THEN {<<>>} ELSE UNION {{<<x>> \o p : p \in Perms(S \ {x})} : x \in S}
 OrderedSubsets(S) == UNION {Perms(Q) : Q \in SUBSET S}
+(* dk = "none1": the first defaulted field has a default that is not a literal of a transportable type (None); *)
+(* the defaulted fields after it have integer defaults                                                         *)
 Sigs == UNION {{[n |-> n, r |-> r, dk |-> "int"] : r \in 0..n} : n \in 1..MaxFields}
+          \cup UNION {{[n |-> n, r |-> r, dk |-> "none1"] : r \in 0..(n - 2)} : n \in 2..(MaxFields + 1)}
 Shapes(sg) == UNION {{[npos |-> np, kws |-> ks] :
                          ks \in {q \in OrderedSubsets({FNames[i] : i \in 1..sg.n} \cup {"zz"}) : Len(q) <= 2}} :
                         np \in 0..(sg.n + 1)}
 Cases == UNION {{[sig |-> sg, shape |-> sh, cls |-> kind, route |-> rt] :
-                    sh \in Shapes(sg), kind \in {"dataclass", "namedtuple", "dataclass_initfalse", "dataclass_kwonly",
-                                                  "dataclass_derived"},    \* (the last field added by a subclass of a dataclass that was lowered before)
+                    sh \in Shapes(sg), kind \in (IF sg.dk = "none1" THEN {"dataclass", "namedtuple"}
+                                                  ELSE {"dataclass", "namedtuple", "dataclass_initfalse", "dataclass_kwonly",
+                                                        "dataclass_derived"}),    \* (the last field added by a subclass of a dataclass that was lowered before)
                     rt \in {"direct", "select"}} :
                   sg \in Sigs}
 VARIABLE cs
